@@ -10,6 +10,7 @@ Not decided by proof (named gap): the Go memory model — unsynchronised reads o
 covers the protocol logic only.  Stress runs with randomised yields are search support.
 -/
 import Orda.Proofs.TxLockProofs
+import Orda.Proofs.TxFlagProofs
 namespace Orda.Props.C20
 open Orda.TxLock
 
@@ -35,5 +36,35 @@ theorem all_done_all_queued (n : Nat) (s : St) (h : Reach true n s) (hd : ∀ i,
 theorem earlier_protocol_broken :
     (∃ s, Reach false 2 s ∧ ∃ i : Nat, s.pcs[i]? = some .critUnlocked) ∧ (∃ s, Reach false 2 s ∧ s.crashed = true) :=
   old_protocol_broken
+
+/-! ### the success flag: "no update is lost", "a transaction does not interleave with other goroutines' calls"
+
+`Model/TxFlag`: one shared boolean decides in EndTransaction between commit and rollback.  Where the source writes it is
+REGENERATED on every run (`Gen.txFacts`, tools/gofacts): the theorems below hold for exactly those facts; the bridge theorem
+`Orda.Shape.C20.source_flag_facts : Gen.txFacts = TxFlag.currentFacts` lives in Orda/Shape/C20.lean. -/
+
+/-- no update lost, no failed transaction committed: every finished unit of work (call, transaction, delivery of remote
+    operations) was committed iff ITS OWN body reported no failure — any number of goroutines, any schedule -/
+theorem outcome_depends_on_own_body_only (fails : Nat → Bool) (n : Nat) (s : Orda.TxFlag.St)
+    (h : Orda.TxFlag.Reach Orda.TxFlag.currentFacts fails n s) (i : Nat) (hd : s.pcs[i]? = some .done) :
+    s.outs[i]? = some (if fails i then .rolledBack else .committed) :=
+  Orda.TxFlag.flag_outcome_is_own fails n s h i hd
+
+theorem flag_protocol_never_stuck (fails : Nat → Bool) (n : Nat) (s : Orda.TxFlag.St)
+    (h : Orda.TxFlag.Reach Orda.TxFlag.currentFacts fails n s)
+    (hnd : ∃ (i : Nat) (p : Orda.TxFlag.Pc), s.pcs[i]? = some p ∧ p ≠ .done) :
+    ∃ s', Orda.TxFlag.Step Orda.TxFlag.currentFacts fails s s' := Orda.TxFlag.flag_progress fails n s h hnd
+
+/-- each of the facts is needed: resetting before the lock instead of under it loses the update of a caller that waited
+    behind a failing transaction (this is seeded change C20-success-flag-race); resetting at both places commits a failed
+    transaction; not resetting at all switches every later unit of work off -/
+theorem flag_facts_are_needed :
+    (∃ (fails : Nat → Bool) (s : Orda.TxFlag.St), Orda.TxFlag.Reach ⟨false, true, true, true⟩ fails 2 s ∧
+      ∃ i : Nat, fails i = false ∧ s.pcs[i]? = some .done ∧ s.outs[i]? = some .rolledBack) ∧
+    (∃ (fails : Nat → Bool) (s : Orda.TxFlag.St), Orda.TxFlag.Reach ⟨true, true, true, true⟩ fails 2 s ∧
+      ∃ i : Nat, fails i = true ∧ s.pcs[i]? = some .done ∧ s.outs[i]? = some .committed) ∧
+    (∃ (fails : Nat → Bool) (s : Orda.TxFlag.St), Orda.TxFlag.Reach ⟨false, false, true, true⟩ fails 2 s ∧
+      ∃ i : Nat, fails i = false ∧ s.pcs[i]? = some .done ∧ s.outs[i]? = some .rolledBack) :=
+  ⟨Orda.TxFlag.reset_before_lock_loses_update, Orda.TxFlag.reset_at_both_commits_failed, Orda.TxFlag.no_reset_loses_update⟩
 
 end Orda.Props.C20
